@@ -521,3 +521,330 @@ def _grammar_users(ctx):
         _finite(ctx, 'grammar-users', '%s: grammar has no operators' % host,
                 lambda: list(mk().infix_ops_inc_precedence) == [] and list(mk().infix_ops_inc_precedence__seq) == []
                 and dict(mk().prefix_operators) == {})
+
+# ============================================================================== (d) the parser's helpers
+# TokenStream (C09: shlex) is the environment: an opaque stream with a one-token look-ahead.  After
+# `consume()` the look-ahead is a new, arbitrary one.  Ghost event ('consume', stream, token) per
+# consumed token.  The methods of the real TokenParser that the expression parser uses are proved
+# against this interface (they are the "interface contract of TokenParser" of DESIGN C06), and the
+# helper methods of _Parser are proved with a real TokenParser over such a stream.
+
+from pyvc.interp import PyRaise
+from exactly_lib.impls.types.expression import parser as expression_parser
+from exactly_lib.section_document.element_parsers import token_stream_parser
+from exactly_lib.section_document.element_parsers.instruction_parser_exceptions import \
+    SingleInstructionInvalidArgumentException as SIIAE
+from exactly_lib.section_document.element_parsers.token_stream import TokenStream, LookAheadState
+from exactly_lib.section_document.element_parsers.token_stream_parser import TokenParser
+from exactly_lib.symbol import symbol_syntax
+from exactly_lib.util.parse.token import Token, TokenType
+
+P_TP = 'exactly_lib.section_document.element_parsers.token_stream_parser'
+P_PARSER = 'exactly_lib.impls.types.expression.parser'
+
+_LOOK_AHEAD_ATTRS = ('is_null', 'head', 'look_ahead_state', 'remaining_part_of_current_line', 'remaining_source',
+                     'head_syntax_error_description', 'is_at_end')
+
+
+def _look_ahead_ok(ts):
+    """TokenStream: head is None iff is_null; look_ahead_state is HAS_TOKEN iff there is a head token"""
+    return iff(ts.head is None, ts.is_null) and iff(ts.look_ahead_state is LookAheadState.HAS_TOKEN, not ts.is_null)
+
+
+def _ts_consume(interp, self, args, kwargs):
+    st = interp.st
+    st.oblige('%s : TokenStream.consume is called only when there is a head token' % interp.current_function_name(),
+              interp.not_(interp.getattr(self, 'is_null')), {'kind': 'callee-pre'})
+    head = interp.getattr(self, 'head')
+    st.emit('consume', self, head)
+    for a in _LOOK_AHEAD_ATTRS:
+        self._pv_attrs.pop(a, None)
+    assume_pred(interp, _look_ahead_ok, self)
+    return head
+
+
+class TokenStreamI(Interface):
+    target_class = TokenStream
+    attrs = {'is_null': Bool, 'head': Opt(Inst(Token, _tuple=[EnumOf(TokenType), Str, Str])),
+             'look_ahead_state': EnumOf(LookAheadState), 'remaining_part_of_current_line': Str,
+             'remaining_source': Str, 'head_syntax_error_description': Str, 'is_at_end': Bool}
+    methods = {'consume': Method(model=_ts_consume)}
+    invariant = staticmethod(_look_ahead_ok)
+
+
+TOKEN_PARSER = Inst(TokenParser, _token_stream=Iface(TokenStreamI), error_message_format_map=Const({}),
+                    _first_line_number=Int)
+
+
+def head_is_unquoted_and_in(old, constants):
+    """there is a head token, it is not quoted, and its string is one of the constants"""
+    return (not old[0]) and old[1].is_plain and old[1].string in constants
+
+
+def consumed(trace, stream):
+    return [e[2] for e in trace if e[0] == 'consume' and e[1] is stream]
+
+
+_LOOK_AHEAD = lambda self: (self._token_stream.is_null, self._token_stream.head)
+
+# --- the interface contract of TokenParser, proved of the real methods
+
+_CONSTANTS = Union(FixedList(Const('(')), FixedList(Const('k1'), Const('k2')), FixedList())
+
+M.contract(P_TP + ':TokenParser.consume_optional_constant_string_that_must_be_unquoted_and_equal',
+           params=dict(self=TOKEN_PARSER, expected_constants=_CONSTANTS, must_be_on_current_line=Bool),
+           old=_LOOK_AHEAD, inline=True,
+           ensures={
+               'matches only an unquoted head token that equals one of the constants': lambda expected_constants,
+                                                                                              old, result:
+               result is None or (head_is_unquoted_and_in(old, expected_constants) and result == old[1].string),
+               'a line break hides the token only if it must be on the current line':
+                   lambda self, expected_constants, must_be_on_current_line, old, result:
+                   implies(head_is_unquoted_and_in(old, expected_constants) and not must_be_on_current_line,
+                           result is not None),
+               'consumes the token iff it matched': lambda self, old, result, trace:
+               consumed(trace, self._token_stream) == ([] if result is None else [old[1]]),
+           }, raises_only=())
+
+M.contract(P_TP + ':TokenParser.consume_mandatory_constant_string_that_must_be_unquoted_and_equal',
+           params=dict(self=TOKEN_PARSER, expected_constants=_CONSTANTS, constant_2_ret_val=Const(lambda x: None),
+                       error_message_header_template=Const('header')),
+           old=_LOOK_AHEAD, inline=True,
+           raises={SIIAE: {'when': lambda expected_constants, old: not head_is_unquoted_and_in(old, expected_constants),
+                           'ensures': lambda self, trace: consumed(trace, self._token_stream) == []}},
+           ensures={
+               'consumes exactly the matched token': lambda self, old, trace:
+               consumed(trace, self._token_stream) == [old[1]],
+           }, raises_only=())
+
+M.contract(P_TP + ':TokenParser.consume_mandatory_unquoted_string',
+           params=dict(self=TOKEN_PARSER, syntax_element_name=Str, must_be_on_current_line=Bool, error_message=Any_),
+           old=_LOOK_AHEAD, inline=True,
+           raises={SIIAE: {'ensures': lambda self, must_be_on_current_line, old, trace:
+           consumed(trace, self._token_stream) == []
+           and (old[0] or old[1].is_quoted or must_be_on_current_line)}},
+           ensures={
+               'the unquoted head token': lambda self, old, result, trace:
+               (not old[0]) and old[1].is_plain and result == old[1].string
+               and consumed(trace, self._token_stream) == [old[1]],
+           }, raises_only=())
+
+# --- the helper methods of the expression parser
+# The grammar is arbitrary: its tables are opaque mappings (any names, any operators).  Symbol syntax
+# (C08) is abstracted: is_symbol_name / parse_symbol_reference__from_str are pure functions of the token.
+
+try:
+    import z3 as _z3     # only used by the models below
+except ImportError:      # replays run under the repository's interpreter, without z3
+    _z3 = None
+
+M.trust('symbol_syntax.is_symbol_name and parse_symbol_reference__from_str are pure functions of the token string '
+        '(their meaning is C08\'s; here only: same token, same answer)')
+
+
+def _m_is_symbol_name(interp, args, kwargs):
+    f = _z3.Function('is_symbol_name', _z3.StringSort(), _z3.BoolSort())
+    return wrap(f(to_z3(args[0])))
+
+
+def _m_parse_symbol_reference(interp, args, kwargs):
+    t = to_z3(args[0])
+    raises = _z3.Function('symref.illegal_name', _z3.StringSort(), _z3.BoolSort())
+    is_ref = _z3.Function('symref.is_reference', _z3.StringSort(), _z3.BoolSort())
+    name = _z3.Function('symref.name', _z3.StringSort(), _z3.StringSort())
+    if interp.st.fork(wrap(raises(t))):
+        raise PyRaise(SIIAE('Illegal symbol name'))
+    if interp.st.fork(wrap(is_ref(t))):
+        return wrap(name(t))
+    return None
+
+
+M.model(symbol_syntax.is_symbol_name, _m_is_symbol_name)
+M.model(symbol_syntax.parse_symbol_reference__from_str, _m_parse_symbol_reference)
+
+
+def _mapping_getitem(interp, self, args, kwargs):
+    key = args[0]
+    if not interp.branch(interp.contains(self, key)):
+        raise PyRaise(KeyError('<key>'))
+    return interp.call(interp.getattr(self, 'value_of'), [key], {})
+
+
+def _mapping_keys(interp, self, args, kwargs):
+    return new_opaque(interp, KeysI, self._pv_uid + '.keys()', preset={'mapping': self})
+
+
+def _keys_contains(interp, self, args, kwargs):
+    return interp.contains(self._pv_attrs['mapping'], args[0])
+
+
+def _syntax_error(interp, o):
+    return SIIAE('syntax error reported by the parser of a primitive')
+
+
+class ExprMakerI(Interface):
+    """mk_reference / mk_expression / parse_arguments of a grammar element: any function; the ghost
+    events ('make', f, args) / ('make:returned', f, result) say what was made from what"""
+    methods = {'__call__': Method(returns=Any_, event='make', may_raise=(_syntax_error,))}
+
+
+class ElementI(Interface):
+    """a Primitive / PrefixOperator / InfixOperator of the grammar"""
+    attrs = {'parse_arguments': Iface(ExprMakerI), 'mk_expression': Iface(ExprMakerI)}
+
+
+class MappingI(Interface):
+    """a dict from names to grammar elements (contents arbitrary)"""
+    methods = {'__contains__': Method(returns=Bool, pure=True),
+               'value_of': Method(returns=Iface(ElementI), pure=True),       # ghost: the value at a key
+               '__getitem__': Method(model=_mapping_getitem),
+               'keys': Method(model=_mapping_keys)}
+
+
+class KeysI(Interface):
+    methods = {'__contains__': Method(model=_keys_contains)}
+
+
+class WordsI(Interface):
+    """custom_reserved_words: any collection of strings"""
+    methods = {'__contains__': Method(returns=Bool, pure=True)}
+
+
+class ErrMsgI(Interface):
+    """_ErrorMessageRenderer: rendering of messages is outside the property"""
+    methods = {'missing_element': Method(returns=Str), 'unknown_primitive': Method(returns=Str),
+               'plain_symbol_name_is_reserved_word': Method(returns=Str)}
+
+
+def _mk_parser(levels):
+    def mk(interp, name):
+        g = object.__new__(expression_grammar.Grammar)
+        g.primitives = new_opaque(interp, MappingI, name + '.grammar.primitives')
+        g.prefix_operators = new_opaque(interp, MappingI, name + '.grammar.prefix_operators')
+        g.custom_reserved_words = new_opaque(interp, WordsI, name + '.grammar.custom_reserved_words')
+        g.mk_reference = new_opaque(interp, ExprMakerI, name + '.grammar.mk_reference')
+        g.infix_ops_inc_precedence__seq = levels.make(interp, name + '.grammar.infix_ops_inc_precedence__seq')
+        p = object.__new__(expression_parser._Parser)
+        p.grammar = g
+        p.parser = TOKEN_PARSER.make(interp, name + '.parser')
+        p.prefix_operator_names = _mapping_keys(interp, g.prefix_operators, (), {})
+        p._err_msg_renderer = new_opaque(interp, ErrMsgI, name + '._err_msg_renderer')
+        return p
+
+    return Custom(mk)
+
+
+PARSER = _mk_parser(Const(()))
+_STREAM_HEAD = lambda self: (self.parser._token_stream.is_null, self.parser._token_stream.head)
+
+
+def made(trace, maker, args, result):
+    """the ghost trace is exactly: `maker` was called with `args` and returned `result`"""
+    return len(trace) == 2 and trace[0] == ('make', maker, args) and trace[1] == ('make:returned', maker, result)
+
+
+def denotation_of_primitive_token(self, primitive_name, result, trace):
+    """what a token in primitive position denotes (documented order: symbol reference syntax, primitive
+    of the grammar, plain symbol name that is not reserved); anything else must not return normally"""
+    ref = symbol_syntax.parse_symbol_reference__from_str(primitive_name)
+    if ref is not None:
+        return made(trace, self.grammar.mk_reference, (ref,), result)
+    if primitive_name in self.grammar.primitives:
+        return made(trace, self.grammar.primitives.value_of(primitive_name).parse_arguments, (self.parser,), result)
+    return symbol_syntax.is_symbol_name(primitive_name) \
+        and primitive_name not in self.grammar.custom_reserved_words \
+        and made(trace, self.grammar.mk_reference, (primitive_name,), result)
+
+
+M.contract(P_PARSER + ':_Parser.parse_primitive',
+           params=dict(self=PARSER, primitive_name=Str),
+           raises={SIIAE: {'ensures': lambda self, trace: consumed(trace, self.parser._token_stream) == []}},
+           ensures={
+               'the token is read as what it denotes, never as something else': denotation_of_primitive_token,
+               'unknown primitive or reserved word is never accepted': lambda self, primitive_name:
+               symbol_syntax.parse_symbol_reference__from_str(primitive_name) is not None
+               or primitive_name in self.grammar.primitives
+               or (symbol_syntax.is_symbol_name(primitive_name)
+                   and primitive_name not in self.grammar.custom_reserved_words),
+           }, raises_only=())
+
+M.contract(P_PARSER + ':_Parser.consume_optional_prefix_operator',
+           params=dict(self=PARSER), old=_STREAM_HEAD,
+           # operator names are not empty (the code tests the matched name for truth, not for None): holds for
+           # every grammar of the program -- finite obligations 'prefix operators are [...]' of 'grammar-tables'
+           requires=lambda self: '' not in self.grammar.prefix_operators,
+           ensures={
+               'an unquoted head token that names a prefix operator (on any line) gives its mk_expression':
+                   lambda self, old, result:
+                   (result is self.grammar.prefix_operators.value_of(old[1].string).mk_expression)
+                   if head_is_unquoted_and_in(old, self.grammar.prefix_operators) else (result is None),
+               'consumes the operator token iff there is one': lambda self, old, result, trace:
+               trace == ([] if result is None else [('consume', self.parser._token_stream, old[1])]),
+           }, raises_only=())
+
+M.contract(P_PARSER + ':_Parser.consume_optional_start_parentheses',
+           params=dict(self=PARSER), old=_STREAM_HEAD,
+           ensures={
+               'true iff the head token is an unquoted ( (on any line)': lambda old, result:
+               result is head_is_unquoted_and_in(old, ('(',)),
+               'consumes the parenthesis iff there is one': lambda self, old, result, trace:
+               trace == ([('consume', self.parser._token_stream, old[1])] if result else []),
+           }, raises_only=())
+
+PARSER_W_LEVELS = _mk_parser(_levels_shapes())
+
+_REPLAY_END_PARENTHESES = '''\
+# every infix operator of every host grammar, offered where a closing parenthesis is mandatory
+import warnings; warnings.simplefilter('ignore')
+from contracts.C06_expression import _grammar_modules
+from exactly_lib.impls.types.expression import parser as ep
+from exactly_lib.section_document.element_parsers.token_stream_parser import new_token_parser
+from exactly_lib.section_document.element_parsers.instruction_parser_exceptions import \\
+    SingleInstructionInvalidArgumentException
+accepted = []
+for group in _grammar_modules():
+    for host, mod in group.items():
+        for level in mod.GRAMMAR.infix_ops_inc_precedence__seq:
+            for nav in level:
+                tp = new_token_parser(nav.name + ' rest')
+                try:
+                    ep._Parser(mod.GRAMMAR, tp).consume_mandatory_end_parentheses()
+                    accepted.append((host, nav.name, tp.token_stream.remaining_source))
+                except SingleInstructionInvalidArgumentException:
+                    pass
+print('accepted as closing parenthesis (host, token, remaining source):', accepted)
+sys.exit(1 if accepted else 0)
+'''
+
+
+def names_of_levels(levels):
+    return [nav.name for level in levels for nav in level]
+
+
+M.contract(P_PARSER + ':_Parser._infix_op_names',
+           params=dict(self=PARSER_W_LEVELS), inline=True,
+           ensures={'the names of all infix operators, level by level': lambda self, result:
+           result == names_of_levels(self.grammar.infix_ops_inc_precedence__seq)},
+           raises_only=())
+
+M.contract(P_PARSER + ':_Parser.consume_mandatory_end_parentheses',
+           params=dict(self=PARSER_W_LEVELS), old=_STREAM_HEAD,
+           raises={SIIAE: {'ensures': lambda self, trace: trace == []}},
+           ensures={
+               'consumes exactly one token, which is not quoted': lambda self, old, trace:
+               (not old[0]) and old[1].is_plain and trace == [('consume', self.parser._token_stream, old[1])],
+               # The property: a malformed expression is a syntax error, never silently re-read.  REFUTED by the
+               # real code, which also accepts (and consumes) any infix operator name here -- reachable from a
+               # full expression, see notes/C06.md (known finding C06-1).
+               'only a ) closes a parenthesis': lambda old: (not old[0]) and old[1].string == ')',
+           }, raises_only=(),
+           replay=lambda model, rf: _REPLAY_END_PARENTHESES if 'only a )' in rf['obligation'] else None)
+
+M.contract(P_PARSER + ':_Parser.__init__',
+           params=dict(self=Inst(expression_parser._Parser),
+                       grammar=Custom(lambda interp, name: PARSER.make(interp, name).grammar), parser=TOKEN_PARSER),
+           ensures={
+               'stores its arguments': lambda self, grammar, parser: self.grammar is grammar and self.parser is parser,
+               'the prefix operator names are the keys of the prefix operator table': lambda self, grammar:
+               self.prefix_operator_names.mapping is grammar.prefix_operators,
+           }, raises_only=())
